@@ -24,7 +24,7 @@ Definition c12_sites_modelled : list (string * c12_rule) :=
    ("import-unnamed", RPath);     (*        pkg_decl DImport []: InFile ppos *)
    ("defnames", RLookupByName);   (*        def_names: lookup_scope (iname i) s *)
    ("define-newnames", ROnlyNew); (*        new_names *)
-   ("compositelit-type", RUnguarded)]. (*   EXMap: EvType NoPos *)
+   ("compositelit-type", RGuarded)]. (*     EComp / EXMap: type_node (no event without a type expression) *)
 
 Definition rule_eq_dec : forall a b : c12_rule, {a = b} + {a <> b}.
 Proof. decide equality. Defined.
